@@ -143,6 +143,19 @@ Example values_setter_partially_applied :
   assoc "X" (vars (fst r)) = Some (mkVar DInt [3] [PInt 1; PInt 2; PInt 3]%Z).
 Proof. vm_compute. repeat split. Qed.
 
+(* values_setter_array_content: hypotheses satisfiable; float rows into an int64 and a float64 series *)
+Example values_setter_content_instance :
+  let a := OArr [2; 3] DFloat [PFlt (FHalf 1); PFlt (FHalf 2); PFlt (FHalf 3); PFlt (FHalf 5); PFlt (FHalf 6); PFlt (FHalf 7)]%Z in
+  NoDup (row_names w0) /\ InvD w0 /\
+  values_setter np_pycast np_arrcast np_infer a w0 = (fst (values_setter np_pycast np_arrcast np_infer a w0), Ret tt) /\
+  assoc "X" (vars (fst (values_setter np_pycast np_arrcast np_infer a w0))) = Some (mkVar DInt [3] [PInt 0; PInt 1; PInt 1]%Z) /\
+  assoc "F" (vars (fst (values_setter np_pycast np_arrcast np_infer a w0))) = Some (mkVar DFloat [3] [PFlt (FHalf 5); PFlt (FHalf 6); PFlt (FHalf 7)]%Z).
+Proof.
+  split; [vm_compute; repeat constructor; simpl; intros C; repeat (destruct C as [C|C]; [discriminate C|]); exact C|].
+  split; [apply reachable_invD; [repeat constructor|apply invD_init_vc]|].
+  vm_compute. repeat split.
+Qed.
+
 (* ---- strict *)
 Definition w_strict : state := fst (np_step (SetAttr "strict" (OScalar (PBool true)) None) w0).
 
